@@ -735,6 +735,35 @@ func c08R3(ic *IC, r *Report) {
 				})
 				return found
 			}
+			// no re-entrant call into interpreted code while a frame's mutex is held: interpreted
+			// code locks frames itself (closure return path, call of a function value), so a
+			// deferred/called closure defined in the same function would self-deadlock.
+			if strings.HasSuffix(l.recv, ".mutex") && isNamed(ic.Info.TypeOf(mutexOwner(l.call)), "frame") {
+				for _, n := range fg.regionFrom(l.call, via) {
+					ownNodes(n, func(m ast.Node) bool {
+						c, ok := m.(*ast.CallExpr)
+						if !ok {
+							return true
+						}
+						re := ""
+						if isCallTo(ic.Info, c, "reflect.Value.Call", "reflect.Value.CallSlice") {
+							re = "reflect.Value.Call"
+						}
+						if isCallTo(ic.Info, c, "interp.runCfg") {
+							re = "runCfg"
+						}
+						if id, ok := unparen(c.Fun).(*ast.Ident); ok {
+							if v, ok := ic.Info.Uses[id].(*types.Var); ok && isNamed(v.Type(), "bltn") {
+								re = "a bltn"
+							}
+						}
+						if re != "" {
+							r.Fail("R08.3", key+"/reentrant", ic.pos(c.Pos()), "interpreted code is entered ("+re+") while "+l.recv+" is held: the callee locks frames itself (a closure defined in this function locks this very frame when it returns), so e.g. 'cleanup := func(){...}; defer cleanup()' deadlocks")
+						}
+						return true
+					})
+				}
+			}
 			leak, _ := fg.exitsWithout(l.call, via)
 			r.Check(!leak, "R08.3", key, pos, "released by "+l.recv+"."+want+" on every path to an exit",
 				"some control-flow path from this "+l.recv+"."+map[bool]string{true: "RLock", false: "Lock"}[l.read]+" reaches a function exit without "+l.recv+"."+want+": the next acquisition deadlocks")
@@ -932,4 +961,17 @@ func c08GoArgs(ic *IC, r *Report) {
 	if n < 2 {
 		r.Errorf("R08.2: %d go statements with an argument vector found in run-time closures; the interpreted->binary and binary call forms are expected", n)
 	}
+}
+
+// mutexOwner returns the expression owning the mutex of a Lock call: f in f.mutex.Lock().
+func mutexOwner(call *ast.CallExpr) ast.Expr {
+	se, ok := unparen(call.Fun).(*ast.SelectorExpr)
+	if !ok {
+		return nil
+	}
+	inner, ok := unparen(se.X).(*ast.SelectorExpr)
+	if !ok {
+		return nil
+	}
+	return inner.X
 }
